@@ -29,6 +29,7 @@ pub fn stub_f64_from_str(s: &str) -> Result<f64, std::num::ParseFloatError> {
 #[kani::unwind(12)]
 #[kani::stub(str::replace, stub_replace_underscore)]
 #[kani::stub(<f64 as core::str::FromStr>::from_str, stub_f64_from_str)]
+#[kani::stub(core::str::from_utf8, stub_from_utf8)]
 pub fn c11_float_overflow_guard() {
     let mut buf = [0u8; 10];
     let mut len = 0;
@@ -87,6 +88,7 @@ pub fn c11_float_overflow_guard() {
 #[kani::unwind(8)]
 #[kani::stub(str::replace, stub_replace_underscore)]
 #[kani::stub(<f64 as core::str::FromStr>::from_str, stub_f64_from_str)]
+#[kani::stub(core::str::from_utf8, stub_from_utf8)]
 pub fn c11_float_overflow_guard_small() {
     let mut buf = [0u8; 6];
     let mut len = 0;
